@@ -42,13 +42,41 @@ ASSUMPTIONS = ["input units: volumes bohr^3, energies Ry (phonon file), static m
 
 
 # ------------------------------------------------------------------ intrinsics
+_STRAIN_CHECKED = []
+
+
 def strain_of(ev, v0, vs):
-    fd = lib_func("qha/grid_interpolation.py", "calculate_eulerian_strain")
-    names, _ = positional_params(fd)
-    rets = [s for s in body_wo_doc(fd) if isinstance(s, ast.Return)]
-    if len(rets) != 1 or len(names) != 2:
-        raise AnalysisError("installed calculate_eulerian_strain has an unrecognised body")
-    return as_sym(ev.eval(rets[0].value, {names[0]: v0, names[1]: vs}, None))
+    """qha's Eulerian strain f = ((v0 / v)^(2/3) - 1) / 2 (the installed source is folded once and compared with that form), kept as the atom
+    EULERIAN(v0, v) with a common unit factor of the two volumes cancelled"""
+    if not _STRAIN_CHECKED:
+        fd = lib_func("qha/grid_interpolation.py", "calculate_eulerian_strain")
+        names, _ = positional_params(fd)
+        rets = [s for s in body_wo_doc(fd) if isinstance(s, ast.Return)]
+        if len(rets) != 1 or len(names) != 2:
+            raise AnalysisError("installed calculate_eulerian_strain has an unrecognised body")
+        a_, b_ = sp.symbols("v0_ v_", positive=True)
+        got = as_sym(ev.eval(rets[0].value, {names[0]: a_, names[1]: b_}, None))
+        if sp.simplify(got - ((a_ / b_) ** sp.Rational(2, 3) - 1) / 2) != 0:
+            raise AnalysisError("installed calculate_eulerian_strain is not ((v0/v)^(2/3) - 1)/2")
+        _STRAIN_CHECKED.append(True)
+    return linear("EULERIAN", [sp.sympify(v0), sp.sympify(vs)], None, same_scale_groups=((0, 1),))
+
+
+def fit_abscissae(xs, xn):
+    """the pair (fitted abscissae, evaluation abscissae) of a full polynomial least-squares fit, reduced to what the fit depends on: a polynomial fit of full
+    degree is unchanged by a common affine map of both, and the Eulerian strains of two reference volumes differ by such a map (f' = a f + (a - 1)/2,
+    a = (v0'/v0)^(2/3)).  Strains with one and the same reference are therefore rewritten to the canonical reference; different references stay as they are"""
+    xs, xn = sp.sympify(xs), sp.sympify(xn)
+    E_ = F("EULERIAN")
+    if xs.func == E_ and xn.func == E_ and xs.args[0] == xn.args[0]:
+        # the reference drops out altogether; what remains are the two sets of volumes (a common unit factor of theirs cancelled)
+        from ..opaque import scalar_part
+        ref = sp.Symbol("ANY_COMMON_REFERENCE_VOLUME", positive=True)
+        a_, b_ = xs.args[1] * xs.args[0] ** 0, xn.args[1]
+        # undo the per-atom scaling by the reference's unit factor: both atoms were scaled by the same reference, so the ratio of their volumes is intact
+        c_, _ = scalar_part(a_)
+        return E_(ref, sp.cancel(a_ / c_)), E_(ref, sp.cancel(b_ / c_))
+    return xs, xn
 
 
 def strain_intr(ev, a, k):
@@ -67,7 +95,8 @@ def plsf_intr(ev, a, k):
         if r not in b:
             raise AnalysisError(f"polynomial_least_square_fitting call lacks {r}")
     order = b.get("order", sp.Integer(3))
-    val = linear("FIT", [as_sym(b["xs"]), as_sym(b["ys"]), as_sym(b["new_xs"]), as_sym(order)], 1)
+    xs_, xn_ = fit_abscissae(as_sym(b["xs"]), as_sym(b["new_xs"]))
+    val = linear("FIT", [xs_, as_sym(b["ys"]), xn_, as_sym(order)], 1)
     ar = return_arity(fd)
     if ar == {1}:
         return val
@@ -211,7 +240,7 @@ class R:
         self.xs = s(at0(VOLS), VOLS)
         self.VG = homogeneous("LINSPACE", [F("MIN")(VOLS) / VR, F("MAX")(VOLS) * VR, NTV], (0, 1))
         self.xg = s(at0(VOLS), self.VG)
-        self.FG = linear("FIT", [self.xs, ENER, self.xg, sp.Integer(2)], 1)
+        self.FG = linear("FIT", [fit_abscissae(self.xs, self.xg)[0], ENER, fit_abscissae(self.xs, self.xg)[1], sp.Integer(2)], 1)
         self.PG = -grad(self.FG) / grad(self.VG)
         if interp == "none":
             self.V, self.Fc = VOLS, ENER
@@ -226,7 +255,8 @@ class R:
         self.xr = s(at0(VOLS2), self.V)
 
     def modulus(self, key):
-        return linear("FIT", [self.x2, sp.Symbol(f"CST_{key[1:]}", real=True), self.xr, sp.Integer(2)], 1)
+        x2_, xr_ = fit_abscissae(self.x2, self.xr)
+        return linear("FIT", [x2_, sp.Symbol(f"CST_{key[1:]}", real=True), xr_, sp.Integer(2)], 1)
 
 
 def vrh_reference(C, S):
